@@ -240,6 +240,28 @@ pub fn build<T: Sc>(
     }
 }
 
+/// like `build`, but the builder receives observations, then provisional weights, then the final weights
+pub fn build_reweighted<T: Sc>(model: BM<T>, y: &DMatrix<T>, provisional: &DVector<T>, w: &DVector<T>, eps: Option<T>, api: Api, par: bool) -> Result<Box<dyn Prob<T>>, String> {
+    macro_rules! finish {
+        ($b:expr) => {{
+            let mut b = $b.weights(provisional.clone()).weights(w.clone());
+            if let Some(e) = eps {
+                b = b.epsilon(e);
+            }
+            match b.build() {
+                Ok(p) => Ok(Box::new(p) as Box<dyn Prob<T>>),
+                Err(e) => Err(format!("{:?}", e)),
+            }
+        }};
+    }
+    match (api, par) {
+        (Api::Single, false) => finish!(LevMarProblemBuilder::new(model).observations(y.column(0).clone_owned())),
+        (Api::Single, true) => finish!(LevMarProblemBuilder::new_parallel(model).observations(y.column(0).clone_owned())),
+        (Api::Mrhs, false) => finish!(LevMarProblemBuilder::mrhs(model).observations(y.clone())),
+        (Api::Mrhs, true) => finish!(LevMarProblemBuilder::mrhs_parallel(model).observations(y.clone())),
+    }
+}
+
 /// Everything the LeastSquaresProblem interface lets a caller observe.
 #[derive(Clone, Debug, PartialEq)]
 pub struct Obs<T: Sc> {
